@@ -49,6 +49,9 @@ Definition lookup_ty (T : string) : option anyty :=
   else if is "tx" then Some (AnyTy dec_tx enc_tx sh_tx p_tx rl_tx)
   else if is "header" then Some (AnyTy (fun _ => dec_header) enc_header sh_header p_header rl_header)
   else if is "block" then Some (AnyTy dec_block enc_block sh_block p_block rl_block)
+  else if is "box_u8" then Some (AnyTy (fun _ => dec_bytes_vec) enc_bytes_vec sh_b p_b rl_bytes_vec)     (* Box<[u8]> = Vec<u8> codec *)
+  else if is "box_hash" then Some (AnyTy (fun _ => dec_vec 32 dec_hash) (enc_vec enc_arr) (sh_list sh_b) (p_list p_b) (rl_vec rl_arr))
+  else if is "box_varint" then Some (AnyTy (fun _ => dec_vec 8 dec_varint) (enc_vec enc_varint) (sh_list sh_N) (p_list p_N) (rl_vec rl_varint))
   else if is "vec_txin" then Some (AnyTy (fun sz => dec_vec (sz_txin sz) dec_txin) (enc_vec enc_txin)
                                          (sh_list sh_txin) (p_list p_txin) (rl_vec rl_txin))
   else if is "vec_txout" then Some (AnyTy (fun sz => dec_vec (sz_txout sz) dec_txout) (enc_vec enc_txout)
